@@ -760,6 +760,9 @@ func (p *Parser) doHeredocs() {
 	}
 	p.rune() // consume '\n', since we know p.tok == _Newl
 	old := p.quote
+	// Copy the pending heredocs, as a body may contain a command substitution
+	// with heredocs of its own, which get appended to the list we truncate.
+	hdocs = slices.Clone(hdocs)
 	p.heredocs = p.heredocs[:p.buriedHdocs]
 	for i, r := range hdocs {
 		if p.err != nil {
